@@ -1,3 +1,4 @@
 //! Generators / writers shared between properties (perf.data, ELF64, Breakpad .sym, …).
 pub mod elf;
 pub mod perfdata;
+pub mod elf_ids;
